@@ -252,6 +252,10 @@ func structuredMutants() []mutant {
 		"sid-nul": "[WL2K-5.0-B2F\x00HM$]", "nul": "\x00", "nul-nul": "\x00\x00", "sp-nul-sp": " \x00 ", "nul-text": "\x00abc", "text-nul": "abc\x00", "a-nul": "a\x00",
 		"err": "*** error", "err-bare": "***", "err-star": "*", "prompt-only": ">", "empty-line": "", "long-line": strings.Repeat("m", 100000), "high-bytes": "\xff\xfe\xfd",
 		"comment": "; comment", "semicolon": ";", "f-line": "FF", "fq-line": "FQ", "fs-line": "FS +",
+		// brackets and dashes in every order and number (the SID grammar is "[" anything "-" features "]", greedy)
+		"sid-early-close": "[RMS]Gate-1.0-B2FHM$]", "sid-close-before-dash": "[WL2K-2.8.4.8]-B2FWIHJM$]", "sid-close-dash-close": "[]-]", "sid-two": "[A-B][C-B2F$]",
+		"sid-nested": "[[WL2K-5.0-B2FWIHJM$]]", "sid-dash-last": "[WL2K-5.0-]", "sid-dash-first": "[-B2FWIHJM$]", "sid-dashes": "[---]", "sid-reversed": "]WL2K-5.0-B2F$[",
+		"sid-close-open": "[]-[", "sid-only-close": "]", "sid-dash-close": "-]", "sid-open-dash": "[-", "sid-close-first": "[]WL2K-5.0-B2F$]", "sid-inner-open": "[WL2K-[5.0-B2F$]",
 	}
 	for id, l := range hsLines {
 		for _, w := range []*b2fx.PeerWorld{slaveEmpty, masterEmpty, slaveOut} {
